@@ -417,6 +417,7 @@ func c09Setup() error {
 			"t/page.html":      "host={{.Host}} uri={{.URI}} method={{.Method}}\n",
 			"dir/one.txt":      "1\n",
 			"dir/two.txt":      "22\n",
+			"dir/Casketfile":   "# a Casketfile lying inside the site root\n",
 			"try/real.txt":     "real\n",
 		}
 		for name, body := range files {
@@ -533,6 +534,11 @@ func c09Battery() []c09Req {
 // c09Load starts the block through the real loader (casket.Start) and returns the http server
 // it built and a stop function.
 func c09Load(lines []c09Line, logName string) (*httpserver.Server, func(), error) {
+	return c09LoadFrom("Casketfile", lines, logName)
+}
+
+// c09LoadFrom: as c09Load, the configuration claiming to come from the file `path`.
+func c09LoadFrom(path string, lines []c09Line, logName string) (*httpserver.Server, func(), error) {
 	var cf strings.Builder
 	cf.WriteString("http://127.0.0.1:0 {\n")
 	for _, l := range lines {
@@ -543,7 +549,7 @@ func c09Load(lines []c09Line, logName string) (*httpserver.Server, func(), error
 		cf.WriteString("\t" + strings.ReplaceAll(t, "\n", "\n\t") + "\n")
 	}
 	cf.WriteString("}\n")
-	inst, err := casket.Start(casket.CasketfileInput{Filepath: "Casketfile", Contents: []byte(cf.String()), ServerTypeName: "http"})
+	inst, err := casket.Start(casket.CasketfileInput{Filepath: path, Contents: []byte(cf.String()), ServerTypeName: "http"})
 	if err != nil {
 		return nil, nil, err
 	}
@@ -861,6 +867,9 @@ type c09Scenario struct {
 	observe      func(rec *httptest.ResponseRecorder, logFile string) string
 }
 
+// scenarios whose configuration claims to come from a file inside the site root
+var c09ScenarioCasketfile = map[string]string{"rootcallback-before-browse": "dir/Casketfile"}
+
 func c09Scenarios() []c09Scenario {
 	status := func(rec *httptest.ResponseRecorder, _ string) string { return strconv.Itoa(rec.Code) }
 	flag := func(b bool) string {
@@ -938,6 +947,13 @@ func c09Scenarios() []c09Scenario {
 			}},
 		{"log-around-browse", "log", "browse", [2]string{"log /dir @LOG@ \"{status}\"", "browse /dir"},
 			c09Req{"GET", "/dir/", nil, ""}, logHas("200")},
+		// the parsing callback after root (hideCasketfile) must have run before browse is set up:
+		// the Casketfile lies in the browsed directory and must not be listed
+		{"rootcallback-before-browse", "root", "browse", [2]string{"root @ROOT@", "browse /dir"},
+			c09Req{"GET", "/dir/", nil, ""},
+			func(rec *httptest.ResponseRecorder, _ string) string {
+				return flag(rec.Code == 200 && strings.Contains(rec.Body.String(), "one.txt") && !strings.Contains(rec.Body.String(), "Casketfile"))
+			}},
 	}
 }
 
@@ -956,9 +972,16 @@ func c09PairsEval(f []string) (string, []string) {
 		if f[1] == "1" {
 			lines[1], lines[2] = lines[2], lines[1]
 		}
+		if sc.outer == "root" {
+			lines = lines[1:] // the scenario brings its own root line
+		}
+		from := "Casketfile"
+		if rel, ok := c09ScenarioCasketfile[sc.name]; ok {
+			from = filepath.Join(c09Root, rel)
+		}
 		logName := "pairs-" + sc.name + "-" + f[1] + ".log"
 		os.Remove(filepath.Join(c09Root, logName))
-		srv, stop, err := c09Load(lines, logName)
+		srv, stop, err := c09LoadFrom(from, lines, logName)
 		if err != nil {
 			return "start-error:" + err.Error(), nil
 		}
@@ -980,7 +1003,159 @@ func c09PairsGen(g *hx.Gen) {
 	}
 }
 
+// ---------------------------------------------------------------------------------------------
+// c09.callbacks: where parsing callbacks run, observed through a probe server type "c09probe"
+// (directives p1..p4 in that order; every setup and every callback records itself) loaded by the
+// real casket.Start.
+//   0 blocks  ';'-separated, each a ','-separated list of directive names (one line each)
+//   1 perm    reordering of the lines of block 0
+//   2 cbs     ','-separated directives after which a parsing callback is registered
+//   out = events of the configuration as written '#' events after reordering block 0
+//         event = s:<dir>:<block>:<key> | c:<dir>
+// ---------------------------------------------------------------------------------------------
+
+var (
+	c09ProbeDirs  = []string{"p1", "p2", "p3", "p4"}
+	c09ProbeTrace []string
+	c09ProbeCbs   map[string]bool
+)
+
+type c09ProbeCtx struct{}
+
+func (c *c09ProbeCtx) InspectServerBlocks(path string, sbs []casketfile.ServerBlock) ([]casketfile.ServerBlock, error) {
+	return sbs, nil
+}
+func (c *c09ProbeCtx) MakeServers() ([]casket.Server, error) { return nil, nil }
+
 func init() {
+	casket.RegisterServerType("c09probe", casket.ServerType{
+		Directives:   func() []string { return c09ProbeDirs },
+		DefaultInput: func() casket.Input { return casket.CasketfileInput{ServerTypeName: "c09probe"} },
+		NewContext:   func(*casket.Instance) casket.Context { return &c09ProbeCtx{} },
+	})
+	for _, d := range c09ProbeDirs {
+		d := d
+		casket.RegisterPlugin(d, casket.Plugin{ServerType: "c09probe", Action: func(c *casket.Controller) error {
+			c09ProbeTrace = append(c09ProbeTrace, fmt.Sprintf("s:%s:%d:%d", d, c.ServerBlockIndex, c.ServerBlockKeyIndex))
+			return nil
+		}})
+		// registration is for the life of the process: the callback is always there and stands for
+		// "registered" only when the case enables it
+		casket.RegisterParsingCallback("c09probe", d, func(casket.Context) error {
+			if c09ProbeCbs[d] {
+				c09ProbeTrace = append(c09ProbeTrace, "c:"+d)
+			}
+			return nil
+		})
+	}
+}
+
+func c09ProbeRun(blocks [][]string) (string, error) {
+	var cf strings.Builder
+	for i, b := range blocks {
+		fmt.Fprintf(&cf, "site%d, alias%d {\n", i, i)
+		for j, d := range b {
+			fmt.Fprintf(&cf, "\t%s arg%d\n", d, j)
+		}
+		cf.WriteString("}\n")
+	}
+	c09ProbeTrace = nil
+	inst, err := casket.Start(casket.CasketfileInput{Filepath: "Casketfile", Contents: []byte(cf.String()), ServerTypeName: "c09probe"})
+	if err != nil {
+		return "", err
+	}
+	inst.Stop()
+	return strings.Join(c09ProbeTrace, ","), nil
+}
+
+func c09CallbacksEval(f []string) (string, []string) {
+	if len(f) != 3 {
+		return "bad-case", nil
+	}
+	casket.Quiet = true
+	var blocks [][]string
+	for _, b := range strings.Split(f[0], ";") {
+		if b == "" {
+			blocks = append(blocks, nil)
+		} else {
+			blocks = append(blocks, strings.Split(b, ","))
+		}
+	}
+	perm, ok := c09Perm(f[1], len(blocks[0]))
+	if !ok {
+		return "bad-case", nil
+	}
+	c09ProbeCbs = map[string]bool{}
+	if f[2] != "" {
+		for _, d := range strings.Split(f[2], ",") {
+			c09ProbeCbs[d] = true
+		}
+	}
+	a, err := c09ProbeRun(blocks)
+	if err != nil {
+		return "start-error:" + err.Error(), nil
+	}
+	re := make([]string, len(blocks[0]))
+	moved := false
+	for k, i := range perm {
+		re[k] = blocks[0][i]
+		moved = moved || k != i
+	}
+	blocks2 := append([][]string{re}, blocks[1:]...)
+	b, err := c09ProbeRun(blocks2)
+	if err != nil {
+		return "start-error:" + err.Error(), nil
+	}
+	tags := []string{fmt.Sprintf("callbacks=%d", len(c09ProbeCbs))}
+	if moved {
+		tags = append(tags, "reordered")
+	}
+	if len(c09ProbeCbs) == 0 {
+		tags = append(tags, "trivial-no-callback")
+	}
+	return a + "#" + b, tags
+}
+
+func c09CallbacksGen(g *hx.Gen) {
+	// exhaustive: every block of up to 3 (thorough 4) lines over p1..p4, every stable reordering,
+	// every set of registered callbacks; a fixed second block
+	maxN := 3
+	if g.Thorough() {
+		maxN = 4
+	}
+	for n := 0; n <= maxN; n++ {
+		total := 1
+		for i := 0; i < n; i++ {
+			total *= 4
+		}
+		for code := 0; code < total; code++ {
+			dirs := make([]string, n)
+			c := code
+			for i := range dirs {
+				dirs[i] = c09ProbeDirs[c%4]
+				c /= 4
+			}
+			for _, p := range c09StablePerms(dirs, 0) {
+				for mask := 0; mask < 16; mask++ {
+					if !g.Thorough() && n == 3 && (mask+code)%4 != 0 {
+						continue
+					}
+					var cbs []string
+					for i, d := range c09ProbeDirs {
+						if mask>>i&1 == 1 {
+							cbs = append(cbs, d)
+						}
+					}
+					second := []string{"", "p3,p1", "p2"}[(code+mask)%3]
+					g.Case(strings.Join(dirs, ",")+";"+second, c09PermField(p), strings.Join(cbs, ","))
+				}
+			}
+		}
+	}
+}
+
+func init() {
+	hx.Register(&hx.Stream{ID: "C09", Name: "c09.callbacks", Gen: c09CallbacksGen, Eval: c09CallbacksEval, Serial: true})
 	hx.Register(&hx.Stream{ID: "C09", Name: "c09.pairs", Gen: c09PairsGen, Eval: c09PairsEval, Serial: true, Teardown: c09Teardown})
 	hx.Register(&hx.Stream{ID: "C09", Name: "c09.directives", Gen: func(g *hx.Gen) { g.Case("http") }, Eval: c09DirectivesEval})
 	hx.Register(&hx.Stream{ID: "C09", Name: "c09.group", Gen: c09GroupGen, Eval: c09GroupEval})
